@@ -14,10 +14,10 @@ EXPLANATION = ("P1 the PEG extracted from the nom combinator calls of src/filter
                "extensibleMatch [9] {matchingRule [1], type [2], matchValue [3], dnAttributes [4]} with the parser output feeding each slot; "
                "P4 the equality / presence / substring discrimination conditions and the adjacent-asterisk rejection predicate; P5 the "
                "unescaper's transition table over {backslash, hex digit, other} x {WantFirst, WantSecond, Value, Error} and acceptance only "
-               "in Value; P6 no panic source reachable from parse / parse_matched_values that is not reviewed infeasible. Not decided: the "
-               "hex-digit arithmetic; 'printing the BER reproduces the input' taken whole.")
+               "in Value, and the unescaper evaluated exhaustively on literals over all 5120 (state, byte) pairs (hex arithmetic included); P6 no panic source reachable from parse / parse_matched_values that is not reviewed infeasible. Not decided: "
+               "'printing the BER reproduces the input' taken whole.")
 TRUSTED = ['nom combinator semantics', 'RFC 4515 grammar transcribed below', 'rules/triage/C08.tsv']
-UNDECIDED = ['hex digit arithmetic of the unescaper (numeric)', 'round trip through a canonical printer taken whole']
+UNDECIDED = ['round trip through a canonical printer taken whole']
 ASSUMPTIONS = []
 TRIAGE = os.path.join(engine.VERIF, 'rules', 'triage', 'C08.tsv')
 FP = 'ldap3::filter::'
@@ -377,6 +377,10 @@ def check_unescaper(ctx, f):
                     ctx.add('P5.value-passthrough', 'Value', loc(B.root), o.val[2] == (C_,), 'an ordinary byte must be passed through unchanged')
         ctx.add('P5.transition', sname, loc(B.root), got == table,
                 'from %s: (hex digit?, backslash?) -> %s; expected %s' % (sname, got, table))
+    import unesc
+    n, w = unesc.check_feed(f)
+    ctx.add('P5.hex-arithmetic-exhaustive', 'Unescaper::feed', loc(B.root), not w and n == 5120,
+            'evaluated on literals for all %d (state, byte) pairs; differs from the RFC 4515 automaton on %d: %s' % (n, len(w), w[:4]))
     # the fold in `unescaped`: start in Value, push exactly the Value payloads, accept only in Value
     U = hirq.Body(f, f.body(FP + 'unescaped'))
     ctx.analysed['bodies'].add(U.path)
